@@ -2,18 +2,18 @@
 From Snax Require Import Base.Prelude Model.AccIR Model.AccSem Model.C04Csr Proofs.AccSemProofs.
 
 (* ---- unfolding equations (the inner fixes are the top-level block functions) ------------------- *)
-Lemma lower_stmt_for am iv lb ub st iters results body yields :
-  lower_stmt am (SFor iv lb ub st iters results body yields) =
-  match lower_block am body with
+Lemma lower_stmt_for am idx iv lb ub st iters results body yields :
+  lower_stmt am idx (SFor iv lb ub st iters results body yields) =
+  match lower_block am idx body with
   | Some cb => Some [CFor iv lb ub st (int_iters iters) (keep_int (map it_ty iters) results) cb
                           (keep_int (map it_ty iters) yields)]
   | None => None
   end.
 Proof. reflexivity. Qed.
 
-Lemma lower_stmt_if am c results thn thn_y els els_y :
-  lower_stmt am (SIf c results thn thn_y els els_y) =
-  match lower_block am thn, lower_block am els with
+Lemma lower_stmt_if am idx c results thn thn_y els els_y :
+  lower_stmt am idx (SIf c results thn thn_y els els_y) =
+  match lower_block am idx thn, lower_block am idx els with
   | Some ct, Some ce =>
       Some [CIf c (keep_int (map snd results) (map fst results)) ct (keep_int (map snd results) thn_y)
                 ce (keep_int (map snd results) els_y)]
@@ -73,6 +73,7 @@ Qed.
 
 Section Refine.
 Variable am : amapT.
+Variable idx : list val.
 Variable co : coracle.
 Let orc := co_orc co.
 Let busy := co_busy co.
@@ -95,23 +96,26 @@ Definition R (mf : fstate) (mc : cstate) : Prop :=
   fenv mf = cenv mc /\ fncalls mf = cncalls mc /\ tc (ftr mf) (ctr mc) (cnpolls mc).
 
 (* setup / launch parameters *)
-Lemma lower_params_R (mk : field -> Z -> fev) (tbl : list (field * Z))
+Lemma lower_params_R (ix : list val) (mk : field -> Z -> fev) (tbl : list (field * Z))
   (Hstep : forall t c n f v ad, tc t c n -> assoc f tbl = Some ad -> tc (mk f v :: t) (CW ad v :: c) n) :
-  forall fs cb, lower_params tbl fs = Some cb ->
+  forall fs cb, lower_params ix tbl fs = Some cb ->
   forall mf mc, R mf mc ->
     R (mkFSt (fenv mf) (fncalls mf) (femit_fields mk (fenv mf) fs (ftr mf))) (cexec_block co cb mc).
 Proof.
   induction fs as [|[f v] fs IH]; intros cb Hl mf mc HR; cbn [lower_params] in Hl.
   - inversion Hl; subst. cbn [femit_fields cexec_block]. destruct mf; exact HR.
   - destruct (assoc f tbl) as [ad|] eqn:Ha; [|discriminate].
-    destruct (lower_params tbl fs) as [r|] eqn:Hr; [|discriminate].
+    destruct (lower_params ix tbl fs) as [r|] eqn:Hr; [|discriminate].
     inversion Hl; subst. cbn [femit_fields cexec_block cexec_stmt].
     destruct HR as (He & Hn & Ht).
     set (mf1 := mkFSt (fenv mf) (fncalls mf) (mk f (fenv mf v) :: ftr mf)).
-    set (mc1 := cexec_write ad (VRef v) mc).
+    set (mc1 := cexec_write ad (if mem_nat v ix then VCast v else VRef v) mc).
     assert (HR1 : R mf1 mc1).
     { unfold R, mf1, mc1, cexec_write. cbn [fenv fncalls ftr cenv cncalls ctr cnpolls cval_eval].
-      repeat split; [exact He|exact Hn|]. rewrite <- He. apply Hstep; assumption. }
+      repeat split; [exact He|exact Hn|].
+      replace (cval_eval (cenv mc) (if mem_nat v ix then VCast v else VRef v)) with (fenv mf v)
+        by (rewrite He; destruct (mem_nat v ix); reflexivity).
+      apply Hstep; assumption. }
     exact (IH r eq_refl mf1 mc1 HR1).
 Qed.
 
@@ -172,9 +176,9 @@ Proof. intros (He & Hn & Ht). unfold R, fset_env, cset_env. cbn. repeat split; a
 
 (* the statement-level simulation *)
 Definition stmt_ok (s : stmt) : Prop :=
-  forall cs, lower_stmt am s = Some cs -> forall mf mc, R mf mc -> R (fexec_stmt orc s mf) (cexec_block co cs mc).
+  forall cs, lower_stmt am idx s = Some cs -> forall mf mc, R mf mc -> R (fexec_stmt orc s mf) (cexec_block co cs mc).
 Definition block_ok (b : block) : Prop :=
-  forall cb, lower_block am b = Some cb -> forall mf mc, R mf mc -> R (fexec_block orc b mf) (cexec_block co cb mc).
+  forall cb, lower_block am idx b = Some cb -> forall mf mc, R mf mc -> R (fexec_block orc b mf) (cexec_block co cb mc).
 
 Lemma lower_sim_stmt : forall s, stmt_ok s.
 Proof.
@@ -193,13 +197,13 @@ Proof.
     intros a o i fs cs Hl mf mc HR. cbn [lower_stmt] in Hl.
     destruct (nth_error am a) as [ai|] eqn:Hai; [|discriminate].
     cbn [fexec_stmt]. unfold lower_setup in Hl.
-    apply (lower_params_R (FSet a) (ai_fields ai)); [|exact Hl|exact HR].
+    apply (lower_params_R idx (FSet a) (ai_fields ai)); [|exact Hl|exact HR].
     intros t c n f v ad Ht Ha. eapply tc_set; eassumption.
   - (* SLaunch *)
     intros a k st fs cs Hl mf mc HR. cbn [lower_stmt] in Hl.
     destruct (nth_error am a) as [ai|] eqn:Hai; [|discriminate].
     cbn [fexec_stmt]. unfold lower_launch in Hl.
-    apply (lower_params_R (FLaunch a) (ai_launch ai)); [|exact Hl|exact HR].
+    apply (lower_params_R [] (FLaunch a) (ai_launch ai)); [|exact Hl|exact HR].
     intros t c n f v ad Ht Ha. eapply tc_launch; eassumption.
   - (* SAwait *)
     intros a k cs Hl mf mc HR. cbn [lower_stmt] in Hl.
@@ -210,7 +214,7 @@ Proof.
   - (* SFor *)
     intros iv lb ub sp its rs body ys IHb cs Hl mf mc HR.
     rewrite lower_stmt_for in Hl.
-    destruct (lower_block am body) as [cb|] eqn:Hb; [|discriminate].
+    destruct (lower_block am idx body) as [cb|] eqn:Hb; [|discriminate].
     inversion Hl; subst. specialize (IHb cb eq_refl).
     rewrite fexec_stmt_for. cbn [cexec_block]. rewrite cexec_stmt_for.
     unfold fexec_for, cexec_for.
@@ -240,8 +244,8 @@ Proof.
   - (* SIf *)
     intros c rs th thy el ely IHt IHe cs Hl mf mc HR.
     rewrite lower_stmt_if in Hl.
-    destruct (lower_block am th) as [ct|] eqn:Ht'; [|discriminate].
-    destruct (lower_block am el) as [ce|] eqn:He'; [|discriminate].
+    destruct (lower_block am idx th) as [ct|] eqn:Ht'; [|discriminate].
+    destruct (lower_block am idx el) as [ce|] eqn:He'; [|discriminate].
     inversion Hl; subst. specialize (IHt ct eq_refl). specialize (IHe ce eq_refl).
     rewrite fexec_stmt_if. cbn [cexec_block]. rewrite cexec_stmt_if.
     unfold fexec_if, cexec_if.
@@ -255,8 +259,8 @@ Proof.
     intros cb Hl mf mc HR. cbn in Hl. inversion Hl; subst. exact HR.
   - (* cons *)
     intros s b IHs IHb cb Hl mf mc HR. cbn [lower_block] in Hl.
-    destruct (lower_stmt am s) as [cx|] eqn:Hs; [|discriminate].
-    destruct (lower_block am b) as [cb'|] eqn:Hb; [|discriminate].
+    destruct (lower_stmt am idx s) as [cx|] eqn:Hs; [|discriminate].
+    destruct (lower_block am idx b) as [cb'|] eqn:Hb; [|discriminate].
     inversion Hl; subst. cbn [fexec_block]. rewrite cexec_block_app.
     apply (IHb cb' eq_refl). apply (IHs cx eq_refl). exact HR.
 Qed.
@@ -266,8 +270,8 @@ Proof.
   apply (block_ind2 stmt_ok block_ok); try (intros; apply lower_sim_stmt).
   - intros cb Hl mf mc HR. cbn in Hl. inversion Hl; subst. exact HR.
   - intros s b IHs IHb cb Hl mf mc HR. cbn [lower_block] in Hl.
-    destruct (lower_stmt am s) as [cx|] eqn:Hs; [|discriminate].
-    destruct (lower_block am b) as [cb'|] eqn:Hb; [|discriminate].
+    destruct (lower_stmt am idx s) as [cx|] eqn:Hs; [|discriminate].
+    destruct (lower_block am idx b) as [cb'|] eqn:Hb; [|discriminate].
     inversion Hl; subst. cbn [fexec_block]. rewrite cexec_block_app.
     apply (IHb cb' Hb). apply (IHs cx Hs). exact HR.
 Qed.
@@ -358,7 +362,7 @@ Qed.
 
 (* ---- the refinement theorem ------------------------------------------------------------------------------ *)
 Theorem lower_refines p cb args :
-  lower_block am (p_body p) = Some cb ->
+  lower_block am idx (p_body p) = Some cb ->
   expand am busy 0%nat (frun orc p args) = Some (crun co (p_params p) cb args)
   /\ fenv (fexec_block orc (p_body p) (finit p args)) = cenv (cexec_block co cb (cinit co (p_params p) args)).
 Proof.
@@ -399,9 +403,9 @@ Fixpoint block_declared (b : block) : bool :=
   match b with [] => true | x :: b' => fields_declared x && block_declared b' end.
 End Declared.
 
-Lemma lower_params_total tbl fs :
+Lemma lower_params_total ix tbl fs :
   forallb (fun fv : field * val => match assoc (fst fv) tbl with Some _ => true | None => false end) fs = true ->
-  exists cb, lower_params tbl fs = Some cb.
+  exists cb, lower_params ix tbl fs = Some cb.
 Proof.
   induction fs as [|[f v] fs IH]; cbn [forallb lower_params fst]; intros H.
   - eexists; reflexivity.
@@ -409,11 +413,11 @@ Proof.
     destruct (IH H2) as [r Hr]. rewrite Hr. eexists; reflexivity.
 Qed.
 
-Lemma lower_total am : forall b, block_declared am b = true -> exists cb, lower_block am b = Some cb.
+Lemma lower_total am idx : forall b, block_declared am b = true -> exists cb, lower_block am idx b = Some cb.
 Proof.
   apply (block_ind2
-    (fun s => fields_declared am s = true -> exists cs, lower_stmt am s = Some cs)
-    (fun b => block_declared am b = true -> exists cb, lower_block am b = Some cb)).
+    (fun s => fields_declared am s = true -> exists cs, lower_stmt am idx s = Some cs)
+    (fun b => block_declared am b = true -> exists cb, lower_block am idx b = Some cb)).
   - intros; eexists; reflexivity.
   - intros; eexists; reflexivity.
   - intros a o i fs H. cbn [fields_declared lower_stmt] in *.
@@ -447,12 +451,12 @@ Proof.
   - intros y Hy. right. apply IH. exact Hy.
 Qed.
 
-Lemma lower_params_ids tbl : forall fs cb, lower_params tbl fs = Some cb -> cblock_ids cb = map snd fs.
+Lemma lower_params_ids ix tbl : forall fs cb, lower_params ix tbl fs = Some cb -> cblock_ids cb = map snd fs.
 Proof.
   induction fs as [|[f v] fs IH]; intros cb H; cbn [lower_params] in H.
   - inversion H; reflexivity.
-  - destruct (assoc f tbl); [|discriminate]. destruct (lower_params tbl fs) as [r|] eqn:Hr; [|discriminate].
-    inversion H; subst. cbn [cblock_ids flat_map cstmt_ids map snd app]. f_equal. apply (IH r eq_refl).
+  - destruct (assoc f tbl); [|discriminate]. destruct (lower_params ix tbl fs) as [r|] eqn:Hr; [|discriminate].
+    inversion H; subst. cbn [cblock_ids flat_map map snd]. destruct (mem_nat v ix); cbn [cstmt_ids app]; f_equal; apply (IH r eq_refl).
 Qed.
 
 Lemma lower_await_ids ai : cblock_ids (lower_await ai) = [].
@@ -483,42 +487,42 @@ Lemma stmt_int_ids_if c results thn thn_y els els_y :
       ++ keep_int (map snd results) els_y ++ block_int_ids thn ++ block_int_ids els.
 Proof. reflexivity. Qed.
 
-Lemma lower_ids am : forall b cb, lower_block am b = Some cb -> cblock_ids cb = block_int_ids b.
+Lemma lower_ids am idx : forall b cb, lower_block am idx b = Some cb -> cblock_ids cb = block_int_ids b.
 Proof.
   apply (block_ind2
-    (fun s => forall cs, lower_stmt am s = Some cs -> cblock_ids cs = stmt_int_ids s)
-    (fun b => forall cb, lower_block am b = Some cb -> cblock_ids cb = block_int_ids b)).
+    (fun s => forall cs, lower_stmt am idx s = Some cs -> cblock_ids cs = stmt_int_ids s)
+    (fun b => forall cb, lower_block am idx b = Some cb -> cblock_ids cb = block_int_ids b)).
   - intros d e cs H. inversion H; subst. cbn. rewrite app_nil_r. reflexivity.
   - intros g ef pu ds ar cs H. inversion H; subst. cbn. rewrite app_nil_r. reflexivity.
   - intros a o i fs cs H. cbn [lower_stmt] in H. destruct (nth_error am a); [|discriminate].
-    apply (lower_params_ids _ _ _ H).
+    apply (lower_params_ids _ _ _ _ H).
   - intros a k st fs cs H. cbn [lower_stmt] in H. destruct (nth_error am a); [|discriminate].
-    apply (lower_params_ids _ _ _ H).
+    apply (lower_params_ids _ _ _ _ H).
   - intros a k cs H. cbn [lower_stmt] in H. destruct (nth_error am a); [|discriminate].
     inversion H; subst. apply lower_await_ids.
   - intros a st cs H. discriminate.
   - intros iv lb ub sp its rs body ys IH cs H. rewrite lower_stmt_for in H.
-    destruct (lower_block am body) as [cb|] eqn:Hb; [|discriminate]. inversion H; subst.
+    destruct (lower_block am idx body) as [cb|] eqn:Hb; [|discriminate]. inversion H; subst.
     cbn [cblock_ids flat_map]. rewrite app_nil_r, cstmt_ids_for, stmt_int_ids_for, (IH cb eq_refl).
     rewrite int_iters_args. unfold int_iters. rewrite map_map. cbn [snd].
     rewrite (keep_int_map it_init). reflexivity.
   - intros c rs th thy el ely IHt IHe cs H. rewrite lower_stmt_if in H.
-    destruct (lower_block am th) as [ct|] eqn:Ht; [|discriminate].
-    destruct (lower_block am el) as [ce|] eqn:He; [|discriminate]. inversion H; subst.
+    destruct (lower_block am idx th) as [ct|] eqn:Ht; [|discriminate].
+    destruct (lower_block am idx el) as [ce|] eqn:He; [|discriminate]. inversion H; subst.
     cbn [cblock_ids flat_map]. rewrite app_nil_r, cstmt_ids_if, stmt_int_ids_if, (IHt ct eq_refl), (IHe ce eq_refl).
     reflexivity.
   - intros cb H. inversion H; reflexivity.
   - intros s b IHs IHb cb H. cbn [lower_block] in H.
-    destruct (lower_stmt am s) as [cs|] eqn:Hs; [|discriminate].
-    destruct (lower_block am b) as [cb'|] eqn:Hb; [|discriminate]. inversion H; subst.
+    destruct (lower_stmt am idx s) as [cs|] eqn:Hs; [|discriminate].
+    destruct (lower_block am idx b) as [cb'|] eqn:Hb; [|discriminate]. inversion H; subst.
     rewrite cblock_ids_app, (IHs cs eq_refl), (IHb cb' eq_refl). reflexivity.
 Qed.
 
-Theorem no_state_survives am b cb :
-  lower_block am b = Some cb ->
+Theorem no_state_survives am idx b cb :
+  lower_block am idx b = Some cb ->
   (forall x, In x (block_state_ids b) -> ~ In x (block_int_ids b)) ->
   forall x, In x (block_state_ids b) -> ~ In x (cblock_ids cb).
-Proof. intros Hl Hty x Hx. rewrite (lower_ids am b cb Hl). apply Hty. exact Hx. Qed.
+Proof. intros Hl Hty x Hx. rewrite (lower_ids am idx b cb Hl). apply Hty. exact Hx. Qed.
 
 (* ---- the CSR file holds what the accelerator was configured with (uses injectivity) ------------------------- *)
 Lemma assoc_In f l a : assoc f l = Some a -> In (f, a) l.
